@@ -36,7 +36,12 @@ RULE = ("Options = every entry of behave.configuration.OPTIONS that has a positi
         "must lie in that file's directory and Configuration.outputs[i] must pair with formatter i; (4) -D strings: name x "
         "{bare, '=', ' = '} x value alphabet x whole-string quoting x outer padding x 4 spellings of -D, userdata in "
         "file (ini/toml, cwd/HOME) x subsets of -D overrides; (5) UserData getters x values x default given/not, direct "
-        "and through Configuration; (6) ordered pairs of build specs: Configuration A then B in one process without "
+        "and through Configuration; (5b) every userdata name behave itself consumes while the Configuration is "
+        "constructed (summary/junit reporter settings; the steps.missing formatter via make_formatters) x {absent, "
+        "file, -D, both with different values, two config files, two files + -D} x {--junit, junit in file, off} x "
+        "{summary on, off}: the attribute of the constructed reporter/formatter object must follow the precedence "
+        "rule, config.reporters must contain exactly the enabled reporters, update_userdata() keeps -D on top; "
+        "(6) ordered pairs of build specs: Configuration A then B in one process without "
         "reset, B must equal a fresh B. In every build ALL options are compared (mentioned ones with the precedence "
         "rule, all others with the documented default), except options rewritten by an active documented mode switch "
         "(--wip, --quiet, --steps-catalog, --junit). A case is non-trivial (distinct by sweep, options, placement, "
@@ -50,6 +55,7 @@ ASSUMPTIONS = [
     "values only' are both accepted (format: only the former, it is documented); tags: command line replaces file",
     "sections [behave.formatters]/[behave.runners] and argparse prefix abbreviations are not covered",
     "subsets larger than 3 options are covered only by the all-options-at-once cases",
+    "whether an already constructed reporter follows config.update_userdata() is not stated: observed, not judged",
 ]
 
 ABSENT = "<absent>"
@@ -934,6 +940,170 @@ def run_getter(case):
             "out": (getter, want[0], res[0]), "dg": (res[0], repr(res[1]))}
 
 
+# ---- consumers that read userdata ONCE while the Configuration is constructed ------------------------------
+# Precedence must hold where the value is USED: the reporters built inside Configuration.__init__ copy their
+# settings out of config.userdata at construction time; a formatter does the same when make_formatters() builds it.
+# name -> (consumer class, attribute, documented default, ((text, attribute value), ...))
+_B = (("false", False), ("true", True), ("no", False), ("1", True))
+CONSUMERS = collections.OrderedDict([
+    ("behave.reporter.summary.output_format",
+     ("SummaryReporter", "output_format", "v1", (("v2", "v2"), ("passed_first", "v1"), ("entity_first", "v2"),
+                                                 ("v1", "v1")))),
+    ("behave.reporter.junit.show_hostname", ("JUnitReporter", "show_hostname", True, _B)),
+    ("behave.reporter.junit.show_multiline", ("JUnitReporter", "show_multiline", True, _B)),
+    ("behave.reporter.junit.show_scenarios", ("JUnitReporter", "show_scenarios", True, _B)),
+    ("behave.reporter.junit.show_tags", ("JUnitReporter", "show_tags", True, _B)),
+    ("behave.reporter.junit.show_timings", ("JUnitReporter", "show_timings", True, _B)),
+    ("behave.reporter.junit.show_timestamp", ("JUnitReporter", "show_timestamp", True, _B)),
+    ("behave.reporter.junit.show_skipped_always", ("JUnitReporter", "show_skipped_always", False, _B)),
+    ("behave.formatter.missing_steps.template",
+     ("MissingStepsFormatter", "template", None, (("TPL-A {undefined_step_snippets}", "TPL-A {undefined_step_snippets}"),
+                                                  ("TPL-B", "TPL-B")))),
+])
+
+
+def consumer_names_in_source():
+    """userdata names read by behave's own reporters/formatters, scraped from their source (vacuity guard only)"""
+    import inspect
+    from behave.reporter import junit, summary
+    from behave.contrib import formatter_missing_steps
+    found = set()
+    for mod in (junit, summary):
+        src = inspect.getsource(mod)
+        scopes = re.findall(r'userdata_scope\s*=\s*"([^"]+)"', src)
+        for key in re.findall(r'config\.get(?:bool|int|float|as)?\(\s*"([A-Za-z_]+)"', src):
+            for sc in scopes:
+                found.add("%s.%s" % (sc, key))
+    src = inspect.getsource(formatter_missing_steps)
+    for sc in re.findall(r'scope\s*=\s*"([^"]+)"', src):
+        if re.search(r'"template"', src):
+            found.add("%s.template" % sc)
+    return found
+
+
+def gen_consumers(quick):
+    fkinds = ("behave.ini", TOML_NAME) if quick else FILE_NAMES
+    for name, (cls, attr, default, values) in CONSUMERS.items():
+        vals = values[:2] if quick else values
+        pls = [("absent", None, None, None, None)]
+        for a in vals:
+            pls.append(("cmd", None, None, a[0], None))
+            for fk in fkinds:
+                for where in (("cwd",) if quick else ("cwd", "home")):
+                    pls.append(("file", (where, fk, a[0]), None, None, None))
+                    for b in vals:
+                        if b[1] != a[1]:
+                            pls.append(("both", (where, fk, a[0]), None, b[0], None))
+        a, b = vals[0], vals[1]
+        for fk in fkinds[:2]:
+            pls.append(("two-files", ("home", fk, a[0]), ("cwd", "behave.ini", None), None, None))    # other file: other key
+            pls.append(("two-files", ("home", fk, a[0]), ("cwd", "setup.cfg", b[0]), None, None))     # same key: either
+            pls.append(("two-files+cmd", ("home", fk, b[0]), ("cwd", "behave.ini", b[0]), a[0], None))
+        if cls == "MissingStepsFormatter":
+            switches = [("fmt", "on")]
+        else:
+            switches = [(j, sm) for j in ("cmd", "file", "off") for sm in ("on", "off")]
+        for pl in pls:
+            for sw in switches:
+                yield (name, pl[0], pl[1], pl[2], pl[3], sw)
+
+
+def run_consumer(case):
+    name, placement, f1, f2, cmdval, (junit, summary) = case
+    cls, attr, default, values = CONSUMERS[name]
+    text2val = dict(values)
+    reset_state()
+    files, fopts = [], []
+    if junit == "file":
+        fopts.append(("junit", True))
+    first = True
+    for f in (f1, f2):
+        if f is None:
+            continue
+        where, fname, val = f
+        ud = ((name, val),) if val is not None else (("other.key", "O"),)
+        files.append(fspec(where, fname, fopts if first else [], ud))
+        first = False
+    if junit == "file" and not files:
+        files.append(fspec("cwd", "behave.ini", fopts))
+    cmd = []
+    if junit == "cmd":
+        cmd.append(("junit", True, ("flag", "--junit")))
+    if summary == "off":
+        cmd.append(("summary", False, ("flag", "--no-summary")))
+    if junit == "fmt":
+        cmd.append(("format", ("steps.missing",), ("sep", "-f")))
+    spec = {"t": "consumer", "files": tuple(files), "cmd": tuple(cmd)}
+    if cmdval is not None:
+        spec["ud_cmd"] = (("sep", "%s=%s" % (name, cmdval)),)
+    obs = build(spec)
+    v = []
+    compare(spec, obs, v, "consumer")
+    check_userdata(spec, obs, v)
+    if "exc" in obs:
+        reset_state()
+        return {"v": v, "dg": digestable(obs), "out": ("consumer", "exc")}
+    cfg = obs["cfg"]
+    # reference: -D, else the config file(s), else the documented default
+    fvals = [f[2] for f in (f1, f2) if f is not None and f[2] is not None]
+    if cmdval is not None:
+        acc, clause = [text2val[cmdval]], ("cmd>file" if fvals else "cmd>default")
+    elif fvals:
+        acc, clause = [text2val[x] for x in fvals], "file>default"      # two files, same key: either (not stated)
+    else:
+        acc, clause = [default], "untouched-default"
+    want_reporters = []
+    if junit in ("cmd", "file"):
+        want_reporters.append("JUnitReporter")
+    if summary == "on":
+        want_reporters.append("SummaryReporter")
+    got_reporters = [type(r).__name__ for r in cfg.reporters]
+    if sorted(x.replace("V1", "").replace("V2", "") for x in got_reporters) != sorted(want_reporters):
+        v.append(({"subcheck": "consumer", "clause": "reporters-present"},
+                  "config.reporters = %r, expected %r  [files: %s; args: %r]"
+                  % (got_reporters, want_reporters, describe_files(spec), list(obs["args"]))))
+    objs = [r for r in cfg.reporters if type(r).__name__.startswith(cls)]
+    if cls == "MissingStepsFormatter":
+        from behave.formatter._registry import make_formatters
+        so = sys.stdout
+        sys.stdout = io.StringIO()
+        try:
+            objs = [f for f in make_formatters(cfg, cfg.outputs) if type(f).__name__ == cls]
+        finally:
+            sys.stdout = so
+        if default is None:
+            acc = [type(objs[0]).template if x is None else x for x in acc] if objs else acc
+    got = "<no %s constructed>" % cls
+    nt = None
+    if objs:
+        got = getattr(objs[0], attr, "<missing>")
+        if not any(got == a and type(got) is type(a) for a in acc):
+            v.append(({"subcheck": "consumer", "clause": clause, "consumer": cls},
+                      "%s.%s = %r, but userdata[%r] is %s -> expected %s  [files: %s; args: %r]"
+                      % (cls, attr, got, name, {"cmd>file": "-D %r over file %r" % (cmdval, fvals),
+                                                "cmd>default": "-D %r" % (cmdval,), "file>default": "file %r" % (fvals,),
+                                                "untouched-default": "not defined"}[clause],
+                         " or ".join(repr(a) for a in acc), describe_files(spec), list(obs["args"]))))
+        if clause != "untouched-default":
+            nt = ("consumer", case)
+    # update_userdata(): documented to re-apply the -D defines over the new data.  Whether an already constructed
+    # reporter follows is not stated anywhere: observed only (digest), never judged.
+    after = None
+    try:
+        cfg.update_userdata({name: "UPDATED", "update.only": "U"})
+        after = (cfg.userdata.get(name), cfg.userdata.get("update.only"))
+        want_after = (ref_define("%s=%s" % (name, cmdval))[0][1] if cmdval is not None else "UPDATED", "U")
+        if after != want_after:
+            v.append(({"subcheck": "consumer", "clause": "update_userdata-define-wins"},
+                      "after update_userdata({%r: 'UPDATED', 'update.only': 'U'}) with -D %r: userdata has %r, expected %r"
+                      % (name, cmdval, after, want_after)))
+    except Exception as e:
+        v.append(({"subcheck": "consumer", "clause": "update_userdata-raises", "exc": type(e).__name__}, repr(e)))
+    dg = (digestable(obs), repr(got), after, repr(getattr(objs[0], attr, None)) if objs else None)
+    reset_state()
+    return {"v": v, "nt": nt, "out": ("consumer", cls, attr, repr(got), clause), "dg": dg}
+
+
 # ---- rebuild differential -----------------------------------------------------
 def run_rebuild(case):
     """build A then B in one process without any reset in between; B must look like a fresh B"""
@@ -1429,6 +1599,12 @@ def run(ctx):
     ctx.sweep(run_build, gen_multifile(quick), chunk=32, name="two config files")
     ctx.sweep(run_build, gen_paths(quick), chunk=32, name="paths/outfiles resolution, format coupling")
     ctx.sweep(run_readconf, gen_readconf(), chunk=32, name="read_configuration(path) in another directory")
+    src_names = consumer_names_in_source()
+    ctx.guard(src_names == set(CONSUMERS),
+              "the userdata names behave's reporters/formatters read at construction equal the CONSUMERS table (%s)"
+              % sorted(src_names ^ set(CONSUMERS)))
+    ctx.sweep(run_consumer, gen_consumers(quick), chunk=32,
+              name="userdata consumers built at construction (reporters, formatter)")
     ctx.sweep(run_define, gen_defines(), chunk=8, name="-D grammar")
     ctx.sweep(run_build, gen_userdata_override(quick), chunk=32, name="userdata file vs -D")
     getters = [(g, val, dg, via) for g in ("getint", "getfloat", "getbool", "getas_int") for val in GETTER_VALUES
